@@ -149,8 +149,8 @@ Definition k_class : str := s!"class".
 (** [attr.name.ns.is_empty()] *)
 Definition is_html_attr (a : attr) : bool := match a_ns a with [] => true | _ => false end.
 
-(** 372-385: an allow-list is in force and the attribute is on neither list; only attributes
-    without namespace can be on the lists (376) *)
+(** 365-379: an allow-list is in force and the attribute is on neither list; only attributes
+    without namespace can be on the lists (367-374) *)
 Definition attr_not_allowed (ename : str) (a : attr) : bool :=
   (is_some (c_allow_attrs cfg) || use_strict cfg)
   && negb (is_html_attr a
@@ -174,18 +174,18 @@ Definition filter_classes (ename : str) (classes : list str) : list str :=
   else c1.
 
 Definition attribute_action (ename : str) (a : attr) : attr_action :=
-  (* 367-369 *)
+  (* 360-363 *)
   if omem (a_name a) (oassoc ename (c_remove_attrs cfg)) then ADrop
-  (* 372-385 *)
+  (* 365-379 *)
   else if attr_not_allowed ename a then ADrop
-  (* 388-434 *)
+  (* 381-434 *)
   else if str_eqb (a_name a) k_class then
     let classes := split_ws (a_val a) in
     let c2 := filter_classes ename classes in
     if Nat.eqb (List.length c2) (List.length classes) then AKeep   (* 420-423 *)
     else match c2 with
          | [] => ADrop                                          (* 425-426 *)
-         | _ => AReplace (join_sp c2)                           (* 428-432 *)
+         | _ => AReplace (join_sp c2)                           (* 427-433 *)
          end
   else AKeep.
 
